@@ -115,13 +115,8 @@ func TestVerifBounded_C06_Compose(t *testing.T) {
 	cases, nontrivial := 0, 0
 	letters := "aaccggtt"
 	for _, off := range []int{-2, 0, 3} {
-		verifFeatureSets(2, off-1, off+len(letters)+1, []feat.Orientation{feat.Forward, feat.Reverse, feat.NotOriented}, func(fs []verifFeat) {
-			for _, f := range fs {
-				// the statement covers features that intersect or touch the sequence
-				if f.e < off || f.s > off+len(letters) {
-					return
-				}
-			}
+		verifFeatureSets(2, off-2, off+len(letters)+2, []feat.Orientation{feat.Forward, feat.Reverse, feat.NotOriented}, func(fs []verifFeat) {
+			// features may lie partly or wholly outside the sequence: their clipped segment is then shorter or empty
 			cases++
 			src := linear.NewSeq("s", alphabet.BytesToLetters([]byte(letters)), alphabet.DNA)
 			src.Offset = off
